@@ -29,12 +29,17 @@ CONSTANT ValidEntry(_)       \* is this (valid UTF-8) record a well-formed entry
 Sep == <<NL, NL>>
 
 \* split at the separator, left to right, non-overlapping: <<complete records, remainder>>
+SplitSepW(b, cuts) ==
+    <<[k \in 1..Len(cuts) |-> SubSeq(b, IF k = 1 THEN 1 ELSE cuts[k - 1] + 2, cuts[k] - 1)],
+      SubSeq(b, IF cuts = <<>> THEN 1 ELSE cuts[Len(cuts)] + 2, Len(b))>>
+SplitSepV(b) == Let1(Occurrences(b, Sep), LAMBDA cuts : SplitSepW(b, cuts))
+SplitSep(b) == Let1(b, LAMBDA x : SplitSepV(x))
 RECURSIVE SplitSepFrom(_, _, _)
 SplitSepFrom(b, from, acc) ==
     LET i == FindFrom(b, Sep, from) IN
     IF i = 0 THEN <<acc, SubSeq(b, from, Len(b))>>
     ELSE SplitSepFrom(b, i + 2, Append(acc, SubSeq(b, from, i - 1)))
-SplitSep(b) == SplitSepFrom(b, 1, <<>>)
+SplitSepRef(b) == SplitSepFrom(b, 1, <<>>)
 
 WellFormed(rec) == ValidUtf8(rec) /\ ValidEntry(rec)
 
@@ -42,8 +47,7 @@ WellFormed(rec) == ValidUtf8(rec) /\ ValidEntry(rec)
 FirstBad(recs) == LET B == {i \in 1..Len(recs) : ~WellFormed(recs[i])}
                   IN IF B = {} THEN 0 ELSE CHOOSE i \in B : \A j \in B : i <= j
 \* offset (number of bytes) at which record i starts
-RECURSIVE StartOf(_, _)
-StartOf(recs, i) == IF i = 1 THEN 0 ELSE StartOf(recs, i - 1) + Len(recs[i - 1]) + 2
+StartOf(recs, i) == FoldL(LAMBDA acc, k : acc + Len(recs[k]) + 2, 0, [k \in 1..(i - 1) |-> k])
 
 (***************************************************************************)
 (* The property.  whole = all bytes of the history (known to the trace     *)
@@ -54,12 +58,13 @@ StartOf(recs, i) == IF i = 1 THEN 0 ELSE StartOf(recs, i - 1) + Len(recs[i - 1])
 \* ends[i] = number of bytes up to and including the separator that completes record i.
 \* (Left-to-right splitting is prefix-stable, so the records complete within a prefix of the
 \* stream are exactly those whose end lies within it.)
-Info(whole) == LET sp == SplitSep(whole)
-                   RECURSIVE EndOf(_)
-                   EndOf(i) == IF i = 0 THEN 0 ELSE EndOf(i - 1) + Len(sp[1][i]) + 2
-               IN [all |-> sp[1], rest |-> sp[2], bad |-> FirstBad(sp[1]),
-                   invalid |-> Utf8Scan(whole, 1)[2] = "invalid",
-                   ends |-> [i \in 1..Len(sp[1]) |-> EndOf(i)]]
+InfoV(whole, sp) ==
+    LET \* ends as running sums
+        es == FoldL(LAMBDA acc, r : Append(acc, (IF acc = <<>> THEN 0 ELSE acc[Len(acc)]) + Len(r) + 2), <<>>, sp[1])
+    IN [all |-> sp[1], rest |-> sp[2], bad |-> FirstBad(sp[1]),
+        invalid |-> Nth(Utf8Scan(whole, 1), 2) = "invalid",
+        ends |-> es]
+Info(whole) == Let1(whole, LAMBDA w : Let1(SplitSep(w), LAMBDA sp : InfoV(w, sp)))
 
 \* a write of len bytes after cumlen bytes, observed as (ret, n2)
 AllowedI(info, cumlen, n, len, ret, n2) ==
@@ -102,7 +107,7 @@ ImplWrite(buf, ents, chunk, Fixed) ==
        ELSE LET usable == SubSeq(b2, 1, sc[1])
                 last   == RFind(usable, Sep)
             IN IF last = 0 THEN [buf |-> b2, ents |-> ents, ret |-> <<"ok", Len(chunk)>>]
-               ELSE LET recs == SplitSep(SubSeq(usable, 1, last + 1))[1]
+               ELSE LET recs == Nth(SplitSep(SubSeq(usable, 1, last + 1)), 1)
                         g    == GoodPrefixLen(recs)
                     IN IF g < Len(recs) THEN Fail(ents \o SubSeq(recs, 1, g))
                        ELSE [buf |-> Drop(b2, last + 1), ents |-> ents \o recs, ret |-> <<"ok", Len(chunk)>>]
